@@ -8,9 +8,9 @@ import random
 
 CPP_TYPES = {
     "u8": "std::uint8_t", "u16": "std::uint16_t", "u32": "std::uint32_t", "u64": "std::uint64_t",
-    "f32": "float", "f64": "double",
+    "f32": "float", "f64": "double", "i8": "signed char",
 }
-SIZES = {"u8": 1, "u16": 2, "u32": 4, "u64": 8, "f32": 4, "f64": 8}
+SIZES = {"u8": 1, "u16": 2, "u32": 4, "u64": 8, "f32": 4, "f64": 8, "i8": 1}
 
 
 def ty_size(ty):
@@ -32,7 +32,7 @@ def cpp_type(ty):
 
 
 COUNT_TYPES = ["u8", "u16", "u32", "u64"]
-TRIVIAL_TYPES = ["u8", "u16", "u32", "u64", "f32", "b1", "b2", "b3", "b5", "b6", "b12", "b24"]
+TRIVIAL_TYPES = ["u8", "u16", "u32", "u64", "f32", "b1", "b2", "b3", "b5", "b6", "b12", "b24", "i8"]
 TRACKED_TYPES = ["t5", "t8", "t12", "t17"]
 ALIGNS = [1, 1, 1, 2, 4, 8, 8, 16, 32]
 
@@ -204,7 +204,7 @@ class Spec:
         return sum(e[1] for e in self.elems)
 
 
-def gen_elem(rng, cfg, fixed, max_count, left_bytes, same_counts=None, vmax=250):
+def gen_elem(rng, cfg, fixed, max_count, left_bytes, same_counts=None, vmax=250, domain=None):
     """values of one element; returns (text, payload bytes, varying counts)"""
     vals = []
     payload = 0
@@ -222,17 +222,18 @@ def gen_elem(rng, cfg, fixed, max_count, left_bytes, same_counts=None, vmax=250)
                 c = min(rng.randint(0, max(0, mx)), max(0, mx))
             vcounts[i] = c
             payload += c * sz
+    pick = (lambda: rng.choice(domain)) if domain else (lambda: rng.randint(1, vmax))
     for i, (k, ty, al) in enumerate(cfg.params):
         if k == "p":
             if i + 1 < len(cfg.params) and cfg.params[i + 1][0] == "v":
                 vals.append([vcounts[i + 1]])
             else:
-                vals.append([rng.randint(1, vmax)])
+                vals.append([pick()])
         elif k == "f":
-            vals.append([rng.randint(1, vmax) for _ in range(fixed[fi])])
+            vals.append([pick() for _ in range(fixed[fi])])
             fi += 1
         else:
-            vals.append([rng.randint(1, vmax) for _ in range(vcounts[i])])
+            vals.append([pick() for _ in range(vcounts[i])])
             counts.append(vcounts[i])
     text = ";".join(",".join(map(str, v)) if v else "-" for v in vals)
     return text, payload, counts
@@ -435,6 +436,10 @@ def gen_history(rng, cfg, length, weights=None, equal_sizes=False, allocs=(1,), 
     return lines
 
 
+# a small value domain (ties in leading fields); 200 has the top bit of a byte set: negative as a signed byte
+CMP_DOMAIN = [1, 1, 2, 2, 200]
+
+
 def gen_compare(rng, cfg, n_cmp):
     """three vectors with equal fixed sizes over a small value domain (ties in leading fields), then comparisons
     of every operand pair, interleaved with pops/erases so that spare capacity and old contents differ"""
@@ -444,6 +449,7 @@ def gen_compare(rng, cfg, n_cmp):
         fixed[0] = 1
     sizes = {}
     fixed_of = {}
+    elems_of = {}
     for k in range(3):
         cap = rng.choice([3, 4, 6])
         # the third vector is sometimes built with other fixed sizes: same bytes, other field sizes must not compare equal
@@ -452,12 +458,35 @@ def gen_compare(rng, cfg, n_cmp):
             fx = [rng.choice([0, 1, 2, 3]) for _ in fixed]
             if not any(p[0] == "p" for p in cfg.params) and sum(fx) == 0:
                 fx[0] = 1
+        # ... or with the same total split differently over adjacent FixedSize fields of one type: elements that hold the
+        # same bytes of v0's elements, cut into fields of other sizes
+        resplit = None
+        if k == 2 and rng.random() < 0.5:
+            fidx = [i for i, p in enumerate(cfg.params) if p[0] == "f"]
+            adj = [(a, b) for a, b in zip(fidx, fidx[1:]) if b == a + 1 and cfg.params[a][1] == cfg.params[b][1] and cfg.params[b][2] == 1]
+            if adj:
+                a, b = rng.choice(adj)
+                ia, ib = fidx.index(a), fidx.index(b)
+                tot = fixed[ia] + fixed[ib]
+                opts = [x for x in range(tot + 1) if x != fixed[ia]]
+                if opts:
+                    fx = list(fixed)
+                    fx[ia] = rng.choice(opts)
+                    fx[ib] = tot - fx[ia]
+                    resplit = (a, b, fx[ia])
         fixed_of[k] = fx
         lines.append("new v%d %d %d %s 1" % (k, cap, 64, fixed_text(fx)))
         n = rng.choice([0, 1, 2, 2, 3])
         sizes[k] = 0
-        for _ in range(n):
-            text, pay, _ = gen_elem(rng, cfg, fx, 2, 20, vmax=2)
+        for j in range(n):
+            if resplit and j < len(elems_of.get(0, [])):
+                vals = [list(v) for v in elems_of[0][j]]
+                flat = vals[resplit[0]] + vals[resplit[1]]
+                vals[resplit[0]], vals[resplit[1]] = flat[:resplit[2]], flat[resplit[2]:]
+                text = ";".join(",".join(map(str, v)) if v else "-" for v in vals)
+            else:
+                text, pay, _ = gen_elem(rng, cfg, fx, 2, 20, domain=CMP_DOMAIN)
+            elems_of.setdefault(k, []).append([[int(x) for x in f.split(",")] if f != "-" else [] for f in text.split(";")])
             lines.append("emplace v%d %s" % (k, text))
             sizes[k] += 1
     # an empty vector that never held anything (block serial numbers are compared, so it is created before the comparisons,
@@ -483,7 +512,7 @@ def gen_compare(rng, cfg, n_cmp):
                 sizes[a] -= 1
         else:
             if sizes[a] < 3:
-                text, pay, _ = gen_elem(rng, cfg, fixed_of[a], 2, 8, vmax=2)
+                text, pay, _ = gen_elem(rng, cfg, fixed_of[a], 2, 8, domain=CMP_DOMAIN)
                 lines.append("emplace v%d %s" % (a, text))
                 sizes[a] += 1
     # a moved-from vector is an empty vector for every comparison, whatever its bookkeeping still holds
@@ -757,6 +786,61 @@ def gen_tight_fill(rng, cfg, mode):
         lines.append("erase v0 0")
         lines.append("emplace v0 %s" % elems[0][0])
     lines.append("dump v0")
+    lines.append("end")
+    return lines
+
+
+def gen_default_fill(rng, cfg):
+    """a default-constructed vector (no block, every fixed size 0) gets its capacity through reserve() and is then filled
+    to exactly that capacity, grown once more, copied and moved: the layout must be that of a vector constructed with the
+    same numbers (needs a plain parameter: with all fixed sizes 0 an element must still hold something)"""
+    if not any(p[0] == "p" for p in cfg.params):
+        return None
+    lines = ["tables", "newdef v0"]
+    fixed = [0] * cfg.nfixed()
+    n = rng.choice([2, 3, 4])
+    elems = [gen_elem(rng, cfg, fixed, rng.choice([1, 3, 4, 7]), 10 ** 9) for _ in range(n + 2)]
+    budget = sum(e[1] for e in elems[:n])
+    lines.append("reserve v0 %d %d" % (n, budget))
+    for text, _, _ in elems[:n]:
+        lines.append("emplace v0 %s" % text)
+    lines.append("dump v0")
+    lines.append("reserve v0 %d %d" % (n + 2, sum(e[1] for e in elems)))
+    for text, _, _ in elems[n:]:
+        lines.append("emplace v0 %s" % text)
+    lines += ["copy v0 v1", "dump v1", "move v0 v2", "dump v2", "erase v2 0", "dump v2", "destroy v0", "destroy v1", "destroy v2", "end"]
+    return lines
+
+
+def gen_empty_compare(rng, cfg):
+    """C18/C13: empty vectors of every origin (fresh with capacity, capacity 0, default-constructed, emptied by clear, by
+    pop_back, by erase, moved-from) built with different fixed sizes and capacities: all compare equal, none less"""
+    lines = ["tables"]
+    nf = cfg.nfixed()
+    has_plain = any(p[0] == "p" for p in cfg.params)
+
+    def fx():
+        f = [rng.choice([0, 1, 2, 3]) for _ in range(nf)]
+        if not has_plain and sum(f) == 0:
+            f[0] = 1
+        return f
+    f0, f1, f2, f3 = fx(), fx(), fx(), fx()
+    lines.append("new v0 %d 64 %s 1" % (rng.choice([2, 3]), fixed_text(f0)))                    # fresh, spare capacity
+    lines.append("new v1 0 0 %s 1" % fixed_text(f1))                                             # capacity 0
+    lines.append("new v2 3 64 %s 1" % fixed_text(f2))                                            # emptied by clear
+    lines.append("emplace v2 %s" % gen_elem(rng, cfg, f2, 2, 20, domain=CMP_DOMAIN)[0])
+    lines.append("emplace v2 %s" % gen_elem(rng, cfg, f2, 2, 20, domain=CMP_DOMAIN)[0])
+    lines.append("clear v2")
+    lines.append("new v3 2 64 %s 1" % fixed_text(f3))                                            # emptied by pop_back / erase
+    lines.append("emplace v3 %s" % gen_elem(rng, cfg, f3, 2, 20, domain=CMP_DOMAIN)[0])
+    lines.append(rng.choice(["pop v3", "erase v3 0"]))
+    names = ["v0", "v1", "v2", "v3"]
+    if has_plain:
+        lines.append("newdef v4")                                                                # default-constructed
+        names.append("v4")
+    for a in names:
+        for b in names:
+            lines.append("cmpv %s %s" % (a, b))
     lines.append("end")
     return lines
 
